@@ -384,8 +384,8 @@ Definition resize_receive_buffer (new_size : Z) : M unit :=
     match fuel with O => (sz, sf) | S f => if sz >? 65535 then scale f (sz / 2) (sf + 1) else (sz, sf) end in
   let '(sz, sf) := scale 33%nat new_size 0 in
   let nsz := w32 (sz * 2 ^ sf) in
-  (* pseudo_tcp_fifo_set_capacity: FALSE (=> g_assert) when the data does not fit *)
-  assert (rb_buffered s <=? nsz) ;;;
+  (* pseudo_tcp_fifo_set_capacity: FALSE when the data does not fit; the buffer is then kept as it is (fix 4e3dfae: was a g_assert) *)
+  if negb (rb_buffered s <=? nsz) then ret tt else
   put (s <| rbuf := (rbuf s) <| rb_cap := nsz |> <| rb_fut := [] |> |> <| rbuf_len := nsz |> <| rwnd_scale := sf mod 256 |>
          <| ssthresh := nsz |> <| rcv_wnd := w32 (nsz - rb_buffered s) |>).
 
